@@ -100,26 +100,12 @@ theorem gt_authorize (F : TFacts) (v : J) (s : GateSt) (hs : s.authed = true) (f
     apply Gt.bind
     apply Gt.bind
     · -- the id-collecting fold makes no calls at all
-      have hfold : ∀ (ys : List J) (init : List Iri) (s0 : GateSt) (Q : GateSt → Option (List Iri) → Prop),
-          (∀ l, Q s0 (some l)) → Q s0 none →
-          Gt true s0 (ys.foldlM (fun (acc : List Iri) j =>
-            match Val.elemOf F j with
-            | .iri u => pure (acc ++ [u])
-            | .emb _ => do
-              let id ← activityIdGet "AuthorizePostInbox: activity.GetJSONLDId().Get()" v
-              pure (acc ++ [id])
-            | .other _ => Prog.fail .lib) init) Q := by
-        intro ys
-        induction ys with
-        | nil => intro init s0 Q h1 _; exact h1 _
-        | cons y ys ih =>
-          intro init s0 Q h1 h2
-          rw [List.foldlM_cons]
-          apply Gt.bind
-          split
-          · exact ih _ _ _ h1 h2
-          · exact gt_activityIdGet _ _ _ (fun id => ih _ _ _ h1 h2)
-          · exact h2
+      have hfold : ∀ (x : Except Unit (List Iri)) (s0 : GateSt) (Q : GateSt → Option (List Iri) → Prop),
+          (∀ l, Q s0 (some l)) → Q s0 none → Gt true s0 (liftLib x) Q := by
+        intro x s0 Q h1 h2
+        cases x with
+        | error _ => exact h2
+        | ok l => exact h1 l
       apply hfold
       · intro iris
         unfold Op.blocked
